@@ -1,5 +1,6 @@
 import Restli.Model.TreeReader
 import Restli.Proofs.NoPanic
+import Restli.Proofs.MissingSpec
 /-! # C06 — required-field accounting and unknown-field tolerance
 
 Every reader finishes a record through `finishRecord` (the model of `readRecord`'s epilogue in
@@ -106,5 +107,62 @@ unseal Strconv.digitsOfNat in
 example : (match treeRead cfgN true [] (.ref "Out")
       (.obj [([97], .arr [.obj [([105], .num [49])], .obj [([110], .str [113]), ([117], .arr [.num [49]])]]), ([120], .obj [])]) with
     | .err (.missing ps _) => ps | _ => []) = [[97, 91, 49, 93, 46, 105], [120, 46, 105]] := by rfl
+
+/-! ## whole documents, any depth
+
+`specMissing` (Proofs/MissingSpec.lean) is the specification: by recursion on the document, the
+required fields each record along the way does not carry — absent, or present with a null value —
+under the full scope (field names, map keys, `[i]` for array items), skipping unknown members, never
+looking at a value. Nothing else about the reader (accumulators, repeated members, defaults,
+zero values of missing required fields) appears in it. -/
+
+/-- **every reader, every document, every schema**: whatever a value read below the top level
+reports as missing is exactly the specification's list, in the specification's order -/
+theorem c06_missing_is_exactly_the_spec (c : TCfg) (hc : SemClean c.sem) (t : Json.JVal) (scope : List Seg)
+    (ty : Ty) (v : Value) (m : List Bytes) (h : treeRead c false scope ty t = .ok v m) :
+    m = specMissing c scope ty t :=
+  read_missing c hc t scope ty v m h
+
+/-- … the JSON reader and the ROR2 readers are two instances (same code path after the leaves) -/
+theorem c06_json_and_ror2_leaves_report_nothing (plus : Bool) : SemClean jsonSem ∧ SemClean (ror2Sem plus) :=
+  ⟨jsonSem_clean, ror2Sem_clean plus⟩
+
+/-- **top level**: when the members decode, the outcome is decided by the specification's list:
+empty ⇒ the value (own defaults filled), nothing reported; non-empty ⇒ one
+missing-required-fields error carrying exactly that list and the partially filled value -/
+theorem c06_top_level_outcome (c : TCfg) (hc : SemClean c.sem) (n : TName) (incs : List TName) (own : List Field)
+    (hfind : c.env.find n = some (.record incs own)) (kvs : List (Bytes × Json.JVal))
+    (r : List (Bytes × Value) × List Bytes) (m0 : List Bytes)
+    (hent : treeReadEntries c [] (.record (allFields c.env (includeFuel c.env) n)) [] [] kvs = .ok r m0) :
+    treeRead c true [] (.ref n) (.obj kvs) =
+      (if specMissing c [] (.ref n) (.obj kvs) = [] then
+        .ok (.record (populateDefaults own (fillRequired c.env (allFields c.env (includeFuel c.env) n) r.1))) []
+       else .err (.missing (specMissing c [] (.ref n) (.obj kvs))
+         (.record (fillRequired c.env (allFields c.env (includeFuel c.env) n) r.1)))) :=
+  read_top_record c hc n incs own hfind kvs r m0 hent
+
+/-- **the ROR2 cursor reader reports the same**: on the rendering of any well-formed raw-token tree,
+at any position inside a document, what it adds to the missing list is the specification's list
+for that tree (the bridge theorem composed with the above) -/
+theorem c06_ror2_cursor_reader_reports_the_spec (rc : RCfg) (t : Json.JVal) (hw : RawWF t) (fuel : Nat)
+    (scope : List Seg) (ty : Ty) (d : UInt8) (rest : Bytes) (ms : List Bytes) (hd : isDelim d = true)
+    (hf : needT t ≤ fuel) (v : Value) (s' : RS)
+    (h : readTy rc fuel scope ty { rest := renderRaw t ++ d :: rest, start := false, missing := ms } = .ok v s') :
+    s'.missing = ms ++ specMissing (tcOf rc) scope ty t := by
+  rw [bridge rc t hw fuel scope ty d rest ms hd hf] at h
+  cases hr : treeRead (tcOf rc) false scope ty t with
+  | ok v' m =>
+    rw [hr] at h
+    simp only [liftT, Res.ok.injEq] at h
+    rw [← h.2, read_missing (tcOf rc) (ror2Sem_clean rc.plus) t scope ty v' m hr]
+  | err e => rw [hr] at h; simp [liftT] at h
+  | panic => rw [hr] at h; simp [liftT] at h
+  | unmodelled => rw [hr] at h; simp [liftT] at h
+
+/-! non-vacuity: the nested example above against the specification -/
+unseal Strconv.digitsOfNat in
+example : specMissing cfgN [] (.ref "Out")
+    (.obj [([97], .arr [.obj [([105], .num [49])], .obj [([110], .str [113]), ([117], .arr [.num [49]])]]), ([120], .obj [])])
+    = [[97, 91, 49, 93, 46, 105], [120, 46, 105]] := by rfl
 
 end Restli.Codec
